@@ -137,7 +137,7 @@ pub fn is_multi(a: &ArgSpec) -> bool {
     mx > 1 || eff_act(a) == Act::Append
 }
 
-fn number_shaped(t: &[u8]) -> bool {
+pub fn number_shaped(t: &[u8]) -> bool {
     // documented shape: -digits[.digits][e digits]
     let Some(r) = t.strip_prefix(b"-") else { return false };
     let mut i = 0;
